@@ -110,8 +110,8 @@ def _near_seam(v: float) -> bool:
 
 # sigma weightings (n, alpha, kappa): kappa None = code default 3 - n.  centre mean weight:
 #   (4,1e-3,None) -1.3e6, (4,.5,None) -4.3, (4,1,None) -1/3, (2,1,None) +1/3, (2,.5,None) -5/3, (4,1,2.0) +1/3, (2,1e-3,None) -6.7e5
-UKF_CFGS_Q = [(4, 1e-3, None), (4, 0.5, None), (4, 1.0, None), (2, 1.0, None)]
-UKF_CFGS_T = UKF_CFGS_Q + [(2, 0.5, None), (2, 1e-3, None), (4, 1.0, 2.0), (4, 0.1, 0.0)]
+UKF_CFGS_Q = [(4, 1e-3, None), (4, 1.0, None), (2, 1.0, None)]
+UKF_CFGS_T = UKF_CFGS_Q + [(4, 0.5, None), (2, 0.5, None), (2, 1e-3, None), (4, 1.0, 2.0), (4, 0.1, 0.0)]
 
 # observation kinds: tuple of (component kind, label)
 OBS_KINDS = {
@@ -130,7 +130,7 @@ MAX_STACK = 4
 #   name -> (offset from seam, use the "other name" of the seam)
 PLACEMENTS = [("seam", 0.0, False), ("seam_alt", 0.0, True), ("seam-1e-9", -1e-9, False), ("seam+1e-9", 1e-9, False),
               ("seam+1e-3", 1e-3, True), ("seam-1e-3", -1e-3, False)]  # fmt: skip
-OFF_SEAM = {A2: PI / 2, AN: 0.5}
+OFF_SEAM = {A2: PI / 2, AN: -0.5}  # AN off-seam mean is negative: a mean reported in the wrong range ([0, 2pi)) leaves [-pi, pi]
 # innovations requested per angular component (rad) / linear component (own units; some beyond +-pi: a linear
 # difference must never be wrapped)
 NU_ANG = [0.0, 0.02, -0.03, 0.004, -1e-9, 1e-9]
@@ -228,7 +228,7 @@ _H4 = [[1.0, 0.5, 0.25, -0.5], [-0.75, 1.0, 0.5, 0.25], [0.5, -1.0, 0.25, 0.75],
 _H2 = [[1.0, 0.5], [-0.75, 1.0], [0.5, -1.0], [0.25, 0.75], [1.0, 1.0], [-0.5, 0.25], [0.75, -0.25], [-1.0, 0.5]]
 
 
-QUAD = {LIN: 0.25, A2: 0.5, AN: -0.5}  # curvature of the stub components (per unit^2 of g.d)
+QUAD = {LIN: 0.25, A2: 0.5, AN: -0.5}  # curvature of the stub components (per unit^2 of g.d); sign alternates with slot + index
 
 
 def _hvec(n, slot, comp):
@@ -275,7 +275,7 @@ def _build_stack(n, kind_names, phase, placement_mode, turn_pattern=None, kpred_
                 c = [0.0, 3.0, -7.5][(slot + j) % 3]
                 nu = NU_LIN[(g_lin + nu_phase) % len(NU_LIN)]
                 g_lin += 1
-                comp = _Comp(label, kind, _hvec(n, slot, j), c, xref, gvec=_hvec(n, slot + 1, j + 1), quad=QUAD[kind])
+                comp = _Comp(label, kind, _hvec(n, slot, j), c, xref, gvec=_hvec(n, slot + 1, j + 1), quad=QUAD[kind] * (1.0 if (slot + j) % 2 == 0 else -1.0))
                 z = c + nu
                 place, kz, kp = "lin", 0, 0
             else:
@@ -294,7 +294,7 @@ def _build_stack(n, kind_names, phase, placement_mode, turn_pattern=None, kpred_
                 kz = turn_pattern[g_ang % len(turn_pattern)] if turn_pattern else 0
                 kp = kpred_pattern[g_ang % len(kpred_pattern)] if kpred_pattern else 0
                 g_ang += 1
-                comp = _Comp(label, kind, _hvec(n, slot, j), c, xref, kpred=kp, gvec=_hvec(n, slot + 1, j + 1), quad=QUAD[kind])
+                comp = _Comp(label, kind, _hvec(n, slot, j), c, xref, kpred=kp, gvec=_hvec(n, slot + 1, j + 1), quad=QUAD[kind] * (1.0 if (slot + j) % 2 == 0 else -1.0))
                 z = (_rep(kind, c + nu) if z_forced is None else z_forced) + TWOPI * kz
             comps.append(comp)
             zvals[label] = z
@@ -888,8 +888,12 @@ def _ukf_multiset(res, tier, seed, ci, mi, ph):
             cpub = {**pub, "variant": "permuted", "order": list(order)}
             _same_posterior(res, "ukf/permutation", "C16/ukf/permutation", cpub, f_perm, f_s, tol_perm, sig0, True, it, perm=cperm)
             _innovation_range(res, "ukf/permutation", cpub, f_perm, kinds_p, True, it)
-            exp_p = reference(obs_perm, kinds_p)
-            _compare_with_reference(res, "ukf/reference_permuted", {**cpub, "_kinds": kinds_p}, f_perm, exp_p, tols, sig0, True, it)
+            if tier == "thorough":  # redundant with permutation + reference of the identity order; kept as a cross-check
+                exp_p = reference(obs_perm, kinds_p)
+                _compare_with_reference(res, "ukf/reference_permuted", {**cpub, "_kinds": kinds_p}, f_perm, exp_p, tols, sig0, True, it)
+            else:  # the bookkeeping the reference comparison would also see: flags follow the permuted order
+                res.case("ukf/permutation/is_angular", cpub, bool(np.array_equal(f_perm.is_angular, [k != LIN for k in kinds_p])),
+                         nontrivial=True, signature="C16/ukf/permutation/is_angular", observed=f_perm.is_angular, item=it)  # fmt: skip
             res.observe(f_perm.est_x)
 
 
